@@ -49,9 +49,8 @@ package core
 // entries, abstracted by eequal; an entry equals itself.
 //@ ufunc eequal(a *Entry, b *Entry, deep bool) bool
 //@ func (*Entry).Equal
-//@   opaque
 //@   deterministic
-//@   ensures result == eequal(e, other, deep)
+//@   ensures[abs] result == eequal(e, other, deep)
 
 // A scan without a baseline returns a newly built snapshot.
 //@ func Scan
